@@ -628,6 +628,26 @@ comp_body = [b for n, b, s in fns if n == "tj3Compress8"][0]
 comp_defaults_before_dest = comp_body.find("setCompDefaults") < comp_body.find("jpeg_mem_dest_tj")
 
 
+# memory manager bookkeeping: free_pool must subtract what it frees, for both object lists
+jmemmgr = strip_comments(rd("src/jmemmgr.c"))
+fp_body = func_body(jmemmgr, "free_pool") or sys.exit("jmemmgr.c: free_pool not found")
+lm = re.search(r"lhdr_ptr\s*=\s*mem->large_list\[pool_id\]", fp_body)
+sm_ = re.search(r"shdr_ptr\s*=\s*mem->small_list\[pool_id\]", fp_body)
+if not lm or not sm_ or lm.start() > sm_.start():
+    sys.exit("jmemmgr.c free_pool: large-list loop followed by small-list loop not found")
+large_part, small_part = fp_body[lm.start():sm_.start()], fp_body[sm_.start():]
+SUB = r"mem->total_space_allocated\s*-=\s*space_freed"
+fp_sub_large = bool(re.search(r"jpeg_free_large\s*\([^;]*;\s*" + SUB, large_part))
+fp_sub_small = bool(re.search(r"jpeg_free_small\s*\([^;]*;\s*" + SUB, small_part))
+ADD = r"mem->total_space_allocated\s*\+="
+as_body = func_body(jmemmgr, "alloc_small") or sys.exit("jmemmgr.c: alloc_small not found")
+al_body = func_body(jmemmgr, "alloc_large") or sys.exit("jmemmgr.c: alloc_large not found")
+if not re.search(ADD, as_body) or not re.search(ADD, al_body):
+    sys.exit("jmemmgr.c: alloc_small / alloc_large no longer add to total_space_allocated")
+rv_body = func_body(jmemmgr, "realize_virt_arrays") or sys.exit("jmemmgr.c: realize_virt_arrays not found")
+if not re.search(r"jpeg_mem_available\s*\([^;]*mem->total_space_allocated\s*\)", rv_body):
+    sys.exit("realize_virt_arrays no longer passes total_space_allocated to jpeg_mem_available")
+
 # global_state values
 jpegint = rd("src/jpegint.h")
 gstates = []
@@ -735,5 +755,9 @@ print("(* tj3DecodeYUVPlanes8 does not build derived Huffman tables from the per
 print("Definition decodeyuv_ignores_huffman_slots : bool := %s." % str(f13_fixed).lower())
 print("(* read_and_discard_scanlines cannot see a colour converter of an earlier image (F5 fixed) *)")
 print("Definition skip_ignores_stale_cconvert : bool := %s." % str(f5_fixed).lower())
+print("(* free_pool subtracts the size of every freed large / small pool block from total_space_allocated (the value")
+print("   realize_virt_arrays compares with max_memory_to_use) *)")
+print("Definition free_pool_subtracts_large : bool := %s." % str(fp_sub_large).lower())
+print("Definition free_pool_subtracts_small : bool := %s." % str(fp_sub_small).lower())
 print("(* tj3Compress*: setCompDefaults is called before jpeg_mem_dest_tj *)")
 print("Definition compress_defaults_before_dest : bool := %s." % str(comp_defaults_before_dest).lower())
